@@ -26,11 +26,15 @@ type c19Conn struct {
 	usable     bool
 	lastUse    int64
 	closeCount int
-	owner      int  // worker holding it, -1: nobody
-	fresh      bool // created by cfg.New and not yet seen by the worker
-	takenShut  bool // the pool's receive that took it out happened after shutdown had completed
-	retLive    bool // was handed to Return while the pool was live (lock taken with keys != nil)
-	retDead    bool // was handed to Return after shutdown (dropped by the pool)
+	owner      int   // worker holding it, -1: nobody
+	fresh      bool  // created by cfg.New and not yet seen by the worker
+	takenShut  bool  // the pool's receive that took it out happened after shutdown had completed
+	retLive    bool  // was handed to Return while the pool was live (lock taken with keys != nil)
+	retDead    bool  // was handed to Return after shutdown (dropped by the pool)
+	newKey     int   // the key cfg.New was called with
+	retKey     int   // the key of the last Return call (-1: never returned); the monitor's own record
+	retAt      int64 // the clock at the last Return call; the monitor's own record
+	usedAt     int64 // the clock when a worker last used it (or it was created); the monitor's own record
 }
 
 func (c *c19Conn) Usable() bool {
@@ -159,7 +163,7 @@ func (r *c19Run) worker(w int) func() {
 					continue
 				}
 				cn := c.(*c19Conn)
-				r.handout(w, cn)
+				r.handout(w, cn, k)
 				r.held[w] = append(r.held[w], cn)
 				r.heldKey[w] = append(r.heldKey[w], k)
 			case 'r':
@@ -170,6 +174,7 @@ func (r *c19Run) worker(w int) func() {
 				r.held[w], r.heldKey[w] = r.held[w][1:], r.heldKey[w][1:]
 				cn.owner = -1
 				r.returning[w] = cn
+				cn.retKey, cn.retAt = k, r.s.Clock
 				r.p.Return(c19Key(k), cn)
 				r.returning[w] = nil
 			case 'u':
@@ -184,6 +189,7 @@ func (r *c19Run) worker(w int) func() {
 					r.violate("C19/two-owners", fmt.Sprintf("worker %d uses conn %d owned by %d", w, cn.id, cn.owner))
 				}
 				cn.lastUse = r.s.Clock
+				cn.usedAt = r.s.Clock
 			case 'd':
 				if len(r.held[w]) == 0 {
 					continue
@@ -205,13 +211,32 @@ func (r *c19Run) worker(w int) func() {
 }
 
 // handout: Get returned cn to worker w — the property's hand-out clauses, on the real objects.
-func (r *c19Run) handout(w int, cn *c19Conn) {
+func (r *c19Run) handout(w int, cn *c19Conn, k int) {
 	if cn.fresh {
 		cn.fresh = false
 		cn.owner = w
+		if cn.newKey != k {
+			r.violate("C19/handed-out-wrong-key", fmt.Sprintf("Get(k%d) returned conn %d which cfg.New created for k%d", k, cn.id, cn.newKey))
+		}
 		return
 	}
-	r.hands = append(r.hands, fmt.Sprintf("%d@%d<%d", cn.id, cn.lastUse, r.s.Clock))
+	rk := "-"
+	if cn.retKey >= 0 {
+		rk = strconv.Itoa(cn.retKey)
+	}
+	r.hands = append(r.hands, fmt.Sprintf("%d@%d<%dk%dr%s@%d", cn.id, cn.lastUse, r.s.Clock, k, rk, cn.retAt))
+	// a connection is only ever handed out for the key it was returned under
+	if cn.retKey != k {
+		r.violate("C19/handed-out-wrong-key", fmt.Sprintf("Get(k%d) handed out conn %d which was last returned under %s", k, cn.id, rk))
+	}
+	// idle lifetime by the monitor's own records (not by what the connection object says): since the last
+	// Return call, and since the last use by a worker
+	if cn.retKey >= 0 && cn.retAt+r.cs.maxLife < r.s.Clock {
+		r.violate("C19/handed-out-idle-too-long", fmt.Sprintf("conn %d returned at %d handed out at %d, lifetime %d", cn.id, cn.retAt, r.s.Clock, r.cs.maxLife))
+	}
+	if cn.usedAt+r.cs.maxLife < r.s.Clock {
+		r.violate("C19/handed-out-expired", fmt.Sprintf("conn %d last used at %d handed out at %d, lifetime %d", cn.id, cn.usedAt, r.s.Clock, r.cs.maxLife))
+	}
 	if cn.closeCount > 0 {
 		r.violate("C19/handed-out-closed", fmt.Sprintf("conn %d handed to worker %d after it was closed", cn.id, w))
 	}
@@ -290,7 +315,12 @@ func c19Run1(cs *c19Case, out *vh.Out) {
 	defer vcoop.Activate(nil)
 	r.p = New(Config{
 		New: func(ctx context.Context, key string) (Conn, error) {
-			c := &c19Conn{run: r, id: len(r.conns), usable: true, lastUse: r.s.Clock, owner: -1, fresh: true}
+			nk := -1
+			if len(key) > 1 {
+				nk, _ = strconv.Atoi(key[1:])
+			}
+			c := &c19Conn{run: r, id: len(r.conns), usable: true, lastUse: r.s.Clock, owner: -1, fresh: true,
+				newKey: nk, retKey: -1, usedAt: r.s.Clock}
 			r.conns = append(r.conns, c)
 			return c, nil
 		},
@@ -722,8 +752,95 @@ func c19GenScenario(r *vh.Rng) *c19Case {
 	return cs
 }
 
+// c19GenFullMap: the map holds MaxKeys live (non-stale, non-expired) buckets with several idle connections each,
+// then connections are returned for further keys (the paths of Return that run on a full map: stale-key
+// collection that finds nothing, whatever the code does about the limit) and every key is asked for again,
+// all inside the idle lifetime: each Get must come back with a connection of ITS key or a new one.
+func c19GenFullMap(r *vh.Rng) *c19Case {
+	cs := &c19Case{style: "scenario full-map"}
+	cs.maxKeys = 1 + r.Intn(2)
+	cs.maxConns = 2 + r.Intn(2)
+	cs.maxLife = int64(3 + r.Intn(3))
+	cs.stale = int64(4 + r.Intn(5))
+	nkeys := cs.maxKeys + 1 + r.Intn(2)
+	// phase 1, one worker per key: n overlapping gets, n returns
+	for k := 0; k < nkeys; k++ {
+		n := 1 + r.Intn(cs.maxConns)
+		if k < cs.maxKeys && r.Chance(70) {
+			n = 2 + r.Intn(cs.maxConns-1)
+		}
+		var p []string
+		for i := 0; i < n; i++ {
+			p = append(p, "g"+strconv.Itoa(k))
+		}
+		if r.Chance(40) {
+			p = append(p, "u")
+		}
+		for i := 0; i < n; i++ {
+			p = append(p, "r")
+		}
+		cs.progs = append(cs.progs, p)
+	}
+	// phase 2: every key is asked for again, by other workers
+	first2 := len(cs.progs)
+	for k := 0; k < nkeys; k++ {
+		n := 1 + r.Intn(3)
+		var p []string
+		for i := 0; i < n; i++ {
+			p = append(p, "g"+strconv.Itoa(k))
+		}
+		if r.Chance(50) {
+			p = append(p, "u", "r")
+		}
+		cs.progs = append(cs.progs, p)
+	}
+	if r.Chance(30) {
+		cs.progs = append(cs.progs, []string{"c"})
+	}
+	if r.Chance(30) {
+		cs.progs = append(cs.progs, []string{"s"})
+	}
+	order := c19Perm(r, nkeys)
+	if r.Chance(60) {
+		sort.Ints(order)
+	}
+	for _, k := range order {
+		for i := 0; i < 2*len(cs.progs[k]); i++ {
+			cs.script = append(cs.script, "U"+strconv.Itoa(k)+":idle")
+		}
+		if r.Chance(20) {
+			cs.script = append(cs.script, "t1")
+		}
+	}
+	for _, k := range c19Perm(r, nkeys) {
+		w := first2 + k
+		for i := 0; i < 2*len(cs.progs[w]); i++ {
+			cs.script = append(cs.script, "U"+strconv.Itoa(w)+":idle")
+			if r.Chance(5) {
+				cs.script = append(cs.script, strconv.Itoa(r.Intn(len(cs.progs)+2)))
+			}
+		}
+	}
+	return cs
+}
+
+func c19Perm(r *vh.Rng, n int) []int {
+	p := make([]int, n)
+	for i := range p {
+		p[i] = i
+	}
+	for i := n - 1; i > 0; i-- {
+		j := r.Intn(i + 1)
+		p[i], p[j] = p[j], p[i]
+	}
+	return p
+}
+
 func c19Gen(r *vh.Rng) *c19Case {
 	if r.Chance(30) {
+		if r.Chance(25) {
+			return c19GenFullMap(r)
+		}
 		return c19GenScenario(r)
 	}
 	cs := &c19Case{}
@@ -895,6 +1012,9 @@ func TestVerifC19Pool(t *testing.T) {
 	defer out.Close()
 	if rp := vh.Replay(); rp != nil {
 		for _, line := range rp {
+			if !strings.HasPrefix(line, "C19 run ") {
+				continue // "C19 mx …": the harness of the real connection type (internal/target/remote)
+			}
 			cs, err := c19Parse(line)
 			if err != nil {
 				t.Fatalf("replay: %v: %s", err, line)
